@@ -75,7 +75,7 @@ func (t *Ty) Outer() string {
 	switch t.Kind {
 	case "named", "namedm", "namedv":
 		return t.Kind + "(" + t.Elems[0].Outer() + ")"
-	case "int32", "float64", "string", "bool":
+	case "int32", "float64", "string", "bool", "int64", "float32":
 		return "basic"
 	}
 	for _, e := range t.Elems {
@@ -315,9 +315,9 @@ func touch(t *Ty, v string) string {
 	switch t.under().Kind {
 	case "ptr", "slice", "map", "func", "iface":
 		fmt.Fprintf(&b, "\t\tprintln(%s == nil)\n", v)
-	case "int32":
+	case "int32", "int64":
 		fmt.Fprintf(&b, "\t\tprintln(%s + 1)\n", v)
-	case "float64":
+	case "float64", "float32":
 		fmt.Fprintf(&b, "\t\tprintln(%s < 1.5)\n", v)
 	case "bool":
 		fmt.Fprintf(&b, "\t\tprintln(!%s)\n", v)
@@ -424,6 +424,164 @@ func RenderTypeProgram(items []TypeItem, wa bool) string {
 	}
 	b.WriteString("}\n")
 	return b.String()
+}
+
+// ---------------------------------------------------------------------------------------------
+// The `calls` family (C16): calls whose results are dropped, deferred, destructured or forwarded.
+// callee kind x use x result tuple; the tuples are drawn from the six basic value shapes and a
+// set of composite types so that every order of wasm value types occurs in the result list.
+
+// CallCallees and CallUses are the two small alphabets of the family.
+var CallCallees = []string{"func", "method", "closure", "iface-method"}
+var CallUses = []string{"defer", "discard", "multi-assign", "return-call"}
+
+var callBasics = []*Ty{{Kind: "int32"}, {Kind: "int64"}, {Kind: "float32"}, {Kind: "float64"}, {Kind: "string"}, {Kind: "bool"}}
+
+// CallTuples enumerates the result lists: every list of length 1..3 over the six basic types
+// (quick: triples over int32, int64, float64, string), plus, for every composite type T of the
+// set, T alone and T in every position next to int32 / float64.
+func CallTuples(thorough bool) [][]*Ty {
+	var out [][]*Ty
+	b := callBasics
+	for _, x := range b {
+		out = append(out, []*Ty{x})
+	}
+	for _, x := range b {
+		for _, y := range b {
+			out = append(out, []*Ty{x, y})
+		}
+	}
+	tri := []*Ty{b[0], b[1], b[3], b[4]}
+	if thorough {
+		tri = b
+	}
+	for _, x := range tri {
+		for _, y := range tri {
+			for _, z := range tri {
+				out = append(out, []*Ty{x, y, z})
+			}
+		}
+	}
+	i32, f64 := b[0], b[3]
+	comps := []*Ty{mk("ptr", i32), mk("slice", i32), mk("struct", i32, f64), {Kind: "iface", Depth: 1}}
+	if thorough {
+		comps = append(comps, mk("array", i32), mk("map", i32, i32), mk("func", i32, i32), mk("named", i32), mk("namedm", i32), mk("named", mk("struct", i32, f64)), mk("array", f64), mk("struct", f64, b[1]))
+	}
+	fill := []*Ty{i32, f64}
+	for _, t := range comps {
+		out = append(out, []*Ty{t})
+		for _, x := range fill {
+			out = append(out, []*Ty{t, x}, []*Ty{x, t})
+		}
+		for _, x := range fill {
+			for _, y := range fill {
+				out = append(out, []*Ty{t, x, y}, []*Ty{x, t, y}, []*Ty{x, y, t})
+			}
+		}
+	}
+	return out
+}
+
+func renderCallItem(r *syn, p, callee, use string, res []*Ty) (decls, body string) {
+	tes := make([]string, len(res))
+	for i, t := range res {
+		tes[i] = r.expr(t)
+	}
+	rl := tes[0]
+	if len(tes) > 1 {
+		rl = "(" + strings.Join(tes, ", ") + ")"
+	}
+	sig := r.res(rl)
+	var ret strings.Builder // body of a callee: zero values of every result type
+	var names []string
+	for i, te := range tes {
+		n := fmt.Sprintf("r%d", i)
+		names = append(names, n)
+		ret.WriteString("\t" + r.vdecl(false, n, te) + "\n")
+	}
+	ret.WriteString("\treturn " + strings.Join(names, ", ") + "\n")
+	var d strings.Builder
+	d.WriteString(r.decls.String())
+	var setup, call string
+	switch callee {
+	case "func":
+		fmt.Fprintf(&d, "func %sf()%s {\n%s}\n\n", p, sig, ret.String())
+		call = p + "f()"
+	case "method", "iface-method":
+		d.WriteString(r.typedecl(p+"M", "struct {\n\t"+r.nt("n", "int32")+"\n}") + "\n\n")
+		if r.wa {
+			fmt.Fprintf(&d, "func %sM.Get()%s {\n%s}\n\n", p, sig, ret.String())
+		} else {
+			fmt.Fprintf(&d, "func (this *%sM) Get()%s {\n%s}\n\n", p, sig, ret.String())
+		}
+		if callee == "method" {
+			setup = "\tm := &" + p + "M{}\n"
+			call = "m.Get()"
+		} else {
+			d.WriteString(r.typedecl(p+"I", "interface {\n\tGet()"+sig+"\n}") + "\n\n")
+			setup = "\t" + r.vinit("i", p+"I", "&"+p+"M{}") + "\n"
+			call = "i.Get()"
+		}
+	case "closure":
+		setup = "\tc := func()" + sig + " {\n" + strings.ReplaceAll(ret.String(), "\t", "\t\t") + "\t}\n"
+		call = "c()"
+	default:
+		panic("unknown callee " + callee)
+	}
+	var b strings.Builder
+	lhs := make([]string, len(res))
+	for i := range res {
+		lhs[i] = fmt.Sprintf("a%d", i)
+	}
+	touchAll := func() {
+		for i, t := range res {
+			b.WriteString(touch(t, lhs[i]))
+		}
+	}
+	switch use {
+	case "defer":
+		fmt.Fprintf(&d, "func %sd() {\n%s\tdefer %s\n\tprintln(1)\n}\n\n", p, setup, call)
+		fmt.Fprintf(&b, "\t%sd()\n", p)
+	case "discard":
+		b.WriteString(setup)
+		b.WriteString("\t" + call + "\n\tprintln(2)\n")
+	case "multi-assign":
+		b.WriteString(setup)
+		b.WriteString("\t" + strings.Join(lhs, ", ") + " := " + call + "\n")
+		touchAll()
+	case "return-call":
+		fmt.Fprintf(&d, "func %st()%s {\n%s\treturn %s\n}\n\n", p, sig, setup, call)
+		b.WriteString("\t" + strings.Join(lhs, ", ") + " := " + p + "t()\n")
+		touchAll()
+	default:
+		panic("unknown use " + use)
+	}
+	return d.String(), b.String()
+}
+
+// CallItems enumerates callee x use x result tuple. In the returned items Outer is
+// "<callee>|<use>" and Context is "results=<n>" (the coarse defect class of the keys).
+func CallItems(thorough bool) []TypeItem {
+	var out []TypeItem
+	for _, tup := range CallTuples(thorough) {
+		var shapes, skels []string
+		for _, t := range tup {
+			shapes = append(shapes, t.Shape())
+			skels = append(skels, t.Outer())
+		}
+		for _, callee := range CallCallees {
+			for _, use := range CallUses {
+				idx := len(out)
+				p := fmt.Sprintf("K%d", idx)
+				it := TypeItem{Index: idx, Shape: callee + " returning (" + strings.Join(shapes, ", ") + ")", Skel: strings.Join(skels, ","),
+					Outer: callee + "|" + use, Context: fmt.Sprintf("results=%d", len(tup)), Depth: len(tup)}
+				it.Decls, it.Body = renderCallItem(&syn{prefix: p}, p, callee, use, tup)
+				it.WaDecls, it.WaBody = renderCallItem(&syn{prefix: p, wa: true}, p, callee, use, tup)
+				out = append(out, it)
+			}
+		}
+	}
+	return out
 }
 
 // RenderFamilyPrograms renders a differential-execution family exactly as Run packs it
